@@ -1,2 +1,773 @@
-(* C34 proofs (in progress) *)
+(* C34 -- proofs about Model/Limiter.v (rate limiters):
+   (c) the counter ring buffer refines a queue of live points; its running sum is the sliding-window sum;
+       the limiter's decisions are those of the straightforward window count (limiter_refines_window);
+   (b) token bucket bound; (a) ipKey grouping; the float comparison (partial). *)
+From Coq Require Import List ZArith NArith Bool Lia ZifyNat ZifyBool Arith String.
 From Verif Require Import Base.Hex Base.Ip Model.Limiter.
+Import ListNotations.
+Open Scope Z_scope.
+Open Scope bool_scope.
+
+(* ====================================================================== *)
+(* (c) the ring buffer refines a queue of live (time, count) points        *)
+(* ====================================================================== *)
+
+Definition csize (c : counter) : nat :=
+  if Nat.leb (head c) (tail c) then (tail c - head c)%nat else (tail c + cap c - head c)%nat.
+Definition cidx (c : counter) (k : nat) : nat :=
+  if Nat.ltb (head c + k) (cap c) then (head c + k)%nat else (head c + k - cap c)%nat.
+Definition entry (c : counter) (j : nat) : Z * Z := (times c j, counts c j).
+(* abstraction function: the live points, oldest first *)
+Definition live (c : counter) : list (Z * Z) := map (fun k => entry c (cidx c k)) (seq 0 (csize c)).
+Fixpoint zsum (l : list (Z * Z)) : Z := match l with [] => 0 | e :: r => snd e + zsum r end.
+
+Record Inv (c : counter) : Prop := mkInv {
+  inv_cap : (0 < cap c)%nat;
+  inv_head : (head c < cap c)%nat;
+  inv_tail : (tail c < cap c)%nat;
+  inv_zero : forall j, (j < cap c)%nat -> (forall k, (k < csize c)%nat -> cidx c k <> j) -> counts c j = 0;
+  inv_total : total c = zsum (live c)
+}.
+
+Lemma zsum_app a b : zsum (a ++ b) = zsum a + zsum b.
+Proof. induction a as [|e a IH]; cbn [app zsum]; lia. Qed.
+
+Lemma next_tail t c : (t < c)%nat -> Nat.modulo (t + 1) c = if Nat.eqb (t + 1) c then O else (t + 1)%nat.
+Proof.
+  intros H. destruct (Nat.eqb_spec (t + 1) c) as [E|E].
+  - rewrite E. apply Nat.mod_same. lia.
+  - apply Nat.mod_small. lia.
+Qed.
+
+Lemma new_counter_inv iv : Inv (new_counter iv) /\ live (new_counter iv) = [].
+Proof.
+  split; [|reflexivity]. constructor; cbn; try lia; intros; reflexivity.
+Qed.
+
+Lemma live_cons c : Inv c -> head c <> tail c ->
+  let c' := mkCounter (interval c) (cap c) (times c) (upd (counts c) (head c) 0)
+                      (if Nat.leb (cap c) (S (head c)) then O else S (head c)) (tail c)
+                      (total c - counts c (head c)) (minTime c) in
+  Inv c' /\ live c = entry c (head c) :: live c' /\ csize c = S (csize c').
+Proof.
+  intros [Hc Hh Ht Hz Htot] Hne c'.
+  assert (Hsz : csize c = S (csize c')).
+  { unfold csize, c'. cbn [head tail cap].
+    destruct (Nat.leb_spec (cap c) (S (head c))); destruct (Nat.leb_spec (head c) (tail c));
+      repeat match goal with |- context [Nat.leb ?a ?b] => destruct (Nat.leb_spec a b) end; lia. }
+  assert (Hidx : forall k, (S k < csize c)%nat -> cidx c (S k) = cidx c' k /\ cidx c (S k) <> head c).
+  { intros k Hk. unfold cidx, c'. cbn [head tail cap]. unfold csize in Hk.
+    destruct (Nat.leb_spec (cap c) (S (head c))); destruct (Nat.leb_spec (head c) (tail c));
+      repeat match goal with |- context [Nat.ltb ?a ?b] => destruct (Nat.ltb_spec a b) end; lia. }
+  assert (Hlive : live c = entry c (head c) :: live c').
+  { unfold live. rewrite Hsz. cbn [seq map]. f_equal.
+    - unfold cidx. rewrite Nat.add_0_r. destruct (Nat.ltb_spec (head c) (cap c)); [reflexivity|lia].
+    - rewrite <- seq_shift, map_map. apply map_ext_in. intros k Hk. apply in_seq in Hk.
+      destruct (Hidx k ltac:(lia)) as [E1 E2]. rewrite <- E1. revert E2. generalize (cidx c (S k)). intros j E2.
+      unfold entry, c'. cbn [times counts]. unfold upd.
+      destruct (Nat.eqb_spec j (head c)); [contradiction|reflexivity]. }
+  split; [|split; assumption].
+  constructor.
+  - exact Hc.
+  - unfold c'. cbn [head cap]. destruct (Nat.leb_spec (cap c) (S (head c))); lia.
+  - exact Ht.
+  - intros j Hj Hnot. unfold c' at 1. cbn [counts]. unfold upd.
+    destruct (Nat.eqb_spec j (head c)) as [->|Hjh]; [reflexivity|].
+    apply Hz; [exact Hj|]. intros k Hk. destruct k as [|k].
+    + unfold cidx. rewrite Nat.add_0_r. destruct (Nat.ltb_spec (head c) (cap c)); lia.
+    + destruct (Hidx k Hk) as [E1 _]. rewrite E1. apply Hnot. lia.
+  - unfold c' at 1. cbn [total]. rewrite Htot, Hlive. cbn [zsum entry snd]. lia.
+Qed.
+
+Fixpoint dropwhile {A} (p : A -> bool) (l : list A) : list A :=
+  match l with [] => [] | x :: r => if p x then dropwhile p r else l end.
+
+Lemma csize_zero c : head c = tail c -> csize c = O.
+Proof. intros E. unfold csize. rewrite E, Nat.leb_refl. lia. Qed.
+
+Lemma expire_loop_ok fuel : forall c m, Inv c -> (csize c <= fuel)%nat ->
+  Inv (expire_loop fuel c m) /\
+  live (expire_loop fuel c m) = dropwhile (fun e => sub_neg (fst e) m) (live c) /\
+  cap (expire_loop fuel c m) = cap c /\ interval (expire_loop fuel c m) = interval c /\
+  minTime (expire_loop fuel c m) = minTime c.
+Proof.
+  induction fuel as [|fuel IH]; intros c m Hinv Hsz; cbn [expire_loop].
+  - assert (E : csize c = O) by lia. split; [exact Hinv|]. split; [|auto].
+    unfold live. rewrite E. reflexivity.
+  - destruct (Nat.eqb_spec (head c) (tail c)) as [E|E].
+    + split; [exact Hinv|]. split; [|auto]. unfold live. rewrite (csize_zero c E). reflexivity.
+    + destruct (live_cons c Hinv E) as [Hinv' [Hl Hs]].
+      rewrite Hl. cbn [dropwhile entry fst].
+      destruct (sub_neg (times c (head c)) m).
+      * destruct (IH _ m Hinv' ltac:(lia)) as [I1 [I2 [I3 [I4 I5]]]].
+        split; [exact I1|]. split; [exact I2|]. split; [exact I3|]. split; [exact I4|exact I5].
+      * rewrite <- Hl. split; [exact Hinv|]. auto.
+Qed.
+
+Lemma csize_lt_cap c : (head c < cap c)%nat -> (tail c < cap c)%nat -> (csize c < cap c)%nat.
+Proof. intros. unfold csize. destruct (Nat.leb_spec (head c) (tail c)); lia. Qed.
+
+Lemma cidx_lt_cap c k : (head c < cap c)%nat -> (k < cap c)%nat -> (cidx c k < cap c)%nat.
+Proof. intros. unfold cidx. destruct (Nat.ltb_spec (head c + k) (cap c)); lia. Qed.
+
+Lemma expire_ok c now : Inv c ->
+  Inv (expire c now) /\
+  live (expire c now) = dropwhile (fun e => sub_neg (fst e) (wrap64 (now - interval c))) (live c) /\
+  cap (expire c now) = cap c /\ interval (expire c now) = interval c /\
+  minTime (expire c now) = wrap64 (now - interval c).
+Proof.
+  intros Hinv. unfold expire.
+  pose proof (csize_lt_cap c (inv_head c Hinv) (inv_tail c Hinv)) as Hlt.
+  destruct (expire_loop_ok (cap c) c (wrap64 (now - interval c)) Hinv ltac:(lia)) as [I1 [I2 [I3 [I4 I5]]]].
+  set (c' := expire_loop (cap c) c (wrap64 (now - interval c))) in *.
+  assert (Hl : live (mkCounter (interval c') (cap c') (times c') (counts c') (head c') (tail c') (total c') (wrap64 (now - interval c))) = live c') by reflexivity.
+  split.
+  - destruct I1 as [A B C D E]. constructor; cbn [cap head tail counts total]; try assumption.
+  - rewrite Hl. cbn [cap interval minTime]. auto.
+Qed.
+
+(* resize keeps the live points and makes room *)
+Lemma resize_ok c : Inv c ->
+  Inv (resize c) /\ live (resize c) = live c /\ cap (resize c) = (cap c * 2)%nat /\
+  csize (resize c) = csize c /\ interval (resize c) = interval c /\ minTime (resize c) = minTime c.
+Proof.
+  intros [Hc Hh Ht Hz Htot].
+  assert (Hszc : (csize c < cap c)%nat) by (apply csize_lt_cap; assumption).
+  assert (Hsz : csize (resize c) = csize c).
+  { unfold csize, resize. cbn [head tail cap].
+    destruct (Nat.ltb_spec (tail c) (head c)); destruct (Nat.leb_spec (head c) (tail c)); cbn [Nat.leb]; lia. }
+  assert (Hpick : forall (old : nat -> Z) i,
+     (if Nat.leb (head c) (tail c) then
+        if Nat.ltb i (tail c - head c) then old (head c + i)%nat else 0
+      else if Nat.ltb i (cap c - head c) then old (head c + i)%nat
+           else if Nat.ltb (i - (cap c - head c)) (tail c) then old (i - (cap c - head c))%nat else 0)
+     = if Nat.ltb i (csize c) then old (cidx c i) else 0).
+  { intros old i. unfold csize, cidx.
+    destruct (Nat.leb_spec (head c) (tail c)).
+    - destruct (Nat.ltb_spec i (tail c - head c)); [|reflexivity].
+      destruct (Nat.ltb_spec (head c + i) (cap c)); [reflexivity|lia].
+    - destruct (Nat.ltb_spec i (cap c - head c)).
+      + destruct (Nat.ltb_spec i (tail c + cap c - head c)); [|lia].
+        destruct (Nat.ltb_spec (head c + i) (cap c)); [reflexivity|lia].
+      + destruct (Nat.ltb_spec (i - (cap c - head c)) (tail c)).
+        * destruct (Nat.ltb_spec i (tail c + cap c - head c)); [|lia].
+          destruct (Nat.ltb_spec (head c + i) (cap c)); [lia|]. f_equal. lia.
+        * destruct (Nat.ltb_spec i (tail c + cap c - head c)); [lia|reflexivity]. }
+  assert (Hidx : forall k, (k < csize c)%nat -> cidx (resize c) k = k).
+  { intros k Hk. unfold cidx, resize. cbn [head cap]. destruct (Nat.ltb_spec (0 + k) (cap c * 2)); lia. }
+  assert (Hlive : live (resize c) = live c).
+  { unfold live. rewrite Hsz. apply map_ext_in. intros k Hk. apply in_seq in Hk.
+    rewrite (Hidx k ltac:(lia)). unfold entry, resize. cbn [times counts]. rewrite !Hpick.
+    destruct (Nat.ltb_spec k (csize c)); [reflexivity|lia]. }
+  split; [|repeat split; auto].
+  constructor.
+  - unfold resize. cbn [cap]. lia.
+  - unfold resize. cbn [head cap]. lia.
+  - unfold resize at 1 2. cbn [tail cap]. fold (csize c) in *.
+    unfold csize in Hszc. unfold resize. cbn [tail cap].
+    destruct (Nat.ltb_spec (tail c) (head c)); destruct (Nat.leb_spec (head c) (tail c)); lia.
+  - intros j Hj Hnot. unfold resize at 1. cbn [counts]. rewrite Hpick.
+    destruct (Nat.ltb_spec j (csize c)) as [Hlt|]; [|reflexivity].
+    exfalso. apply (Hnot j); [rewrite Hsz; exact Hlt|apply Hidx; exact Hlt].
+  - rewrite Hlive. unfold resize. cbn [total]. exact Htot.
+Qed.
+
+(* writing a new point at tail when there is room *)
+Lemma push_ok c now count : Inv c -> (csize c + 1 < cap c)%nat ->
+  let c' := mkCounter (interval c) (cap c) (upd (times c) (tail c) now)
+                      (upd (counts c) (tail c) (counts c (tail c) + count))
+                      (head c) (Nat.modulo (tail c + 1) (cap c)) (total c + count) (minTime c) in
+  Inv c' /\ live c' = live c ++ [(now, count)].
+Proof.
+  intros [Hc Hh Ht Hz Htot] Hroom c'.
+  assert (Hnt : Nat.modulo (tail c + 1) (cap c) = if Nat.eqb (tail c + 1) (cap c) then O else (tail c + 1)%nat)
+    by (apply next_tail; exact Ht).
+  assert (Hsz : csize c' = S (csize c)).
+  { unfold csize, c'. cbn [head tail cap]. rewrite Hnt. unfold csize in Hroom.
+    destruct (Nat.eqb_spec (tail c + 1) (cap c)); destruct (Nat.leb_spec (head c) (tail c));
+      repeat match goal with |- context [Nat.leb ?a ?b] => destruct (Nat.leb_spec a b) end; lia. }
+  assert (Hidx : forall k, cidx c' k = cidx c k) by reflexivity.
+  assert (Hlast : cidx c (csize c) = tail c).
+  { unfold cidx, csize. destruct (Nat.leb_spec (head c) (tail c));
+      match goal with |- context [Nat.ltb ?a ?b] => destruct (Nat.ltb_spec a b) end; lia. }
+  assert (Hnot : forall k, (k < csize c)%nat -> cidx c k <> tail c).
+  { intros k Hk. unfold cidx. unfold csize in Hk, Hroom. destruct (Nat.leb_spec (head c) (tail c));
+      match goal with |- context [Nat.ltb ?a ?b] => destruct (Nat.ltb_spec a b) end; lia. }
+  assert (Hzero : counts c (tail c) = 0) by (apply Hz; [exact Ht|exact Hnot]).
+  assert (Hlive : live c' = live c ++ [(now, count)]).
+  { unfold live. rewrite Hsz, seq_S, map_app. cbn [map Nat.add]. f_equal.
+    - apply map_ext_in. intros k Hk. apply in_seq in Hk. rewrite Hidx.
+      pose proof (Hnot k ltac:(lia)) as Hk'. revert Hk'. generalize (cidx c k). intros j Hj.
+      unfold entry, c'. cbn [times counts]. unfold upd.
+      destruct (Nat.eqb_spec j (tail c)); [contradiction|reflexivity].
+    - rewrite Hidx, Hlast. unfold entry, c'. cbn [times counts]. unfold upd. rewrite Nat.eqb_refl, Hzero.
+      rewrite Z.add_0_l. reflexivity. }
+  split; [|exact Hlive]. constructor.
+  - exact Hc.
+  - exact Hh.
+  - unfold c'. cbn [tail cap]. rewrite Hnt. destruct (Nat.eqb_spec (tail c + 1) (cap c)); lia.
+  - intros j Hj Hn. unfold c' at 1. cbn [counts]. unfold upd.
+    destruct (Nat.eqb_spec j (tail c)) as [->|Hjt].
+    + exfalso. apply (Hn (csize c)); [lia|]. rewrite Hidx. exact Hlast.
+    + apply Hz; [exact Hj|]. intros k Hk. rewrite <- Hidx. apply Hn. lia.
+  - rewrite Hlive, zsum_app. unfold c'. cbn [total zsum snd]. lia.
+Qed.
+
+(* add, when the point is not older than the window *)
+Lemma add_ok c now count : Inv c -> sub_neg now (minTime c) = false ->
+  Inv (add c now count) /\ live (add c now count) = live c ++ [(now, count)] /\
+  interval (add c now count) = interval c /\ minTime (add c now count) = minTime c.
+Proof.
+  intros Hinv Hs. unfold add. rewrite Hs.
+  pose proof (inv_tail c Hinv) as Ht. pose proof (inv_head c Hinv) as Hh.
+  set (c1 := if Nat.eqb (Nat.modulo (tail c + 1) (cap c)) (head c) then resize c else c).
+  assert (H1 : Inv c1 /\ live c1 = live c /\ (csize c1 + 1 < cap c1)%nat /\ interval c1 = interval c /\ minTime c1 = minTime c).
+  { unfold c1. rewrite (next_tail _ _ Ht).
+    destruct (Nat.eqb_spec (if Nat.eqb (tail c + 1) (cap c) then O else (tail c + 1)%nat) (head c)) as [E|E].
+    - destruct (resize_ok c Hinv) as [R1 [R2 [R3 [R4 [R5 R6]]]]].
+      split; [exact R1|]. split; [exact R2|]. split; [|auto]. rewrite R3, R4.
+      pose proof (csize_lt_cap c Hh Ht). lia.
+    - split; [exact Hinv|]. split; [reflexivity|]. split; [|auto].
+      unfold csize. destruct (Nat.eqb_spec (tail c + 1) (cap c)); destruct (Nat.leb_spec (head c) (tail c)); lia. }
+  destruct H1 as [I1 [I2 [I3 [I4 I5]]]].
+  destruct (push_ok c1 now count I1 I3) as [P1 P2]. cbv zeta in P1, P2.
+  split; [exact P1|]. split; [rewrite P2, I2; reflexivity|]. cbn [interval minTime]. auto.
+Qed.
+
+(* ---------- int64 comparisons inside the stated range ---------- *)
+
+Lemma wrap64_small z : - 2 ^ 63 <= z < 2 ^ 63 -> wrap64 z = z.
+Proof. intros H. unfold wrap64. rewrite Z.mod_small by lia. lia. Qed.
+
+Lemma sub_neg_small a b : - 2 ^ 63 <= a - b < 2 ^ 63 -> sub_neg a b = (a <? b).
+Proof.
+  intros H. unfold sub_neg. rewrite wrap64_small by exact H.
+  destruct (Z.ltb_spec (a - b) 0); destruct (Z.ltb_spec a b); lia || reflexivity.
+Qed.
+
+Definition trange (t : Z) : Prop := 0 <= t < 2 ^ 62.
+
+(* ---------- the queue level ---------- *)
+
+Fixpoint asc (l : list (Z * Z)) : Prop :=
+  match l with [] => True | x :: r => Forall (fun y => fst x <= fst y) r /\ asc r end.
+
+Lemma filter_all {A} (p : A -> bool) l : Forall (fun x => p x = true) l -> filter p l = l.
+Proof. induction 1 as [|x r Hx Hr IH]; cbn [filter]; [reflexivity|]. rewrite Hx, IH. reflexivity. Qed.
+
+Lemma dropwhile_filter_asc m l : asc l ->
+  dropwhile (fun e => fst e <? m) l = filter (fun e => m <=? fst e) l.
+Proof.
+  induction l as [|x r IH]; intros Ha; [reflexivity|]. destruct Ha as [Hx Hr]. cbn [dropwhile filter].
+  destruct (Z.ltb_spec (fst x) m) as [Hlt|Hge].
+  - replace (m <=? fst x) with false by (symmetry; apply Z.leb_gt; lia). apply IH. exact Hr.
+  - replace (m <=? fst x) with true by (symmetry; apply Z.leb_le; lia). f_equal. symmetry. apply filter_all.
+    eapply Forall_impl; [|exact Hx]. cbn beta. intros y Hy. apply Z.leb_le. lia.
+Qed.
+
+Lemma asc_filter p l : asc l -> asc (filter p l).
+Proof.
+  induction l as [|x r IH]; intros Ha; [exact I|]. destruct Ha as [Hx Hr]. cbn [filter].
+  destruct (p x); [|apply IH; exact Hr]. split; [|apply IH; exact Hr].
+  apply Forall_forall. intros y Hy. apply filter_In in Hy. destruct Hy as [Hy _].
+  rewrite Forall_forall in Hx. apply Hx. exact Hy.
+Qed.
+
+Lemma asc_app_one l x : asc l -> Forall (fun y => fst y <= fst x) l -> asc (l ++ [x]).
+Proof.
+  induction l as [|y r IH]; intros Ha Hb; cbn [app asc]; [split; [constructor|exact I]|].
+  destruct Ha as [Hy Hr]. inversion Hb as [|? ? Hyx Hrx]; subst. split.
+  - apply Forall_app. split; [exact Hy|]. constructor; [exact Hyx|constructor].
+  - apply IH; assumption.
+Qed.
+
+Lemma filter_filter_weaker (m1 m2 : Z) l : m1 <= m2 ->
+  filter (fun e : Z * Z => m2 <=? fst e) (filter (fun e => m1 <=? fst e) l) = filter (fun e => m2 <=? fst e) l.
+Proof.
+  intros H. induction l as [|x r IH]; [reflexivity|]. cbn [filter].
+  destruct (Z.leb_spec m1 (fst x)).
+  - cbn [filter]. rewrite IH. reflexivity.
+  - rewrite IH. replace (m2 <=? fst x) with false by (symmetry; apply Z.leb_gt; lia). reflexivity.
+Qed.
+
+Lemma zsum_rev l : zsum (rev l) = zsum l.
+Proof. induction l as [|x r IH]; [reflexivity|]. cbn [rev]. rewrite zsum_app, IH. cbn [zsum]. lia. Qed.
+
+Lemma window_sum_filter iv now hist :
+  window_sum iv now hist = zsum (filter (fun e => now - iv <=? fst e) hist).
+Proof.
+  unfold window_sum. induction hist as [|x r IH]; [reflexivity|]. cbn [fold_right filter].
+  destruct (now - iv <=? fst x); cbn [zsum]; rewrite IH; reflexivity.
+Qed.
+
+Lemma filter_rev {A} (p : A -> bool) l : filter p (rev l) = rev (filter p l).
+Proof.
+  induction l as [|x r IH]; [reflexivity|]. cbn [rev filter]. rewrite filter_app, IH. cbn [filter].
+  destruct (p x); [reflexivity|]. rewrite app_nil_r. reflexivity.
+Qed.
+
+(* ---------- histories, newest first ---------- *)
+
+(* run the counter over a history given newest first *)
+Definition run_hist (iv : Z) (hist : list (Z * Z)) : counter :=
+  fold_right (fun e c => update_and_add c (snd e) (fst e)) (new_counter iv) hist.
+
+(* times within [0, 2^62), newest first and non-increasing towards the past *)
+Fixpoint desc (l : list (Z * Z)) : Prop :=
+  match l with [] => True | x :: r => Forall (fun y => fst y <= fst x) r /\ desc r end.
+
+Definition good_hist (iv : Z) (hist : list (Z * Z)) : Prop :=
+  0 < iv < 2 ^ 62 /\ Forall (fun e => trange (fst e)) hist /\ desc hist.
+
+Definition qfilter (iv : Z) (hist : list (Z * Z)) : list (Z * Z) :=
+  match hist with
+  | [] => []
+  | (t, _) :: _ => filter (fun e => t - iv <=? fst e) (rev hist)
+  end.
+
+Lemma desc_rev_asc l : desc l -> asc (rev l).
+Proof.
+  induction l as [|x r IH]; intros H; [exact I|]. destruct H as [Hx Hr]. cbn [rev].
+  apply asc_app_one; [apply IH; exact Hr|]. apply Forall_rev. exact Hx.
+Qed.
+
+Lemma dropwhile_sub_neg m q : Forall (fun e => trange (fst e)) q -> - 2 ^ 62 <= m < 2 ^ 62 ->
+  dropwhile (fun e => sub_neg (fst e) m) q = dropwhile (fun e : Z * Z => fst e <? m) q.
+Proof.
+  intros Hq Hm. induction Hq as [|x r Hx Hr IH]; [reflexivity|]. cbn [dropwhile].
+  rewrite sub_neg_small by (unfold trange in Hx; lia).
+  destruct (fst x <? m); [exact IH|reflexivity].
+Qed.
+
+Lemma qfilter_step iv now hist : desc hist -> Forall (fun y : Z * Z => fst y <= now) hist ->
+  dropwhile (fun e => fst e <? now - iv) (qfilter iv hist) = filter (fun e => now - iv <=? fst e) (rev hist).
+Proof.
+  intros Hd Hle. destruct hist as [|[t0 c0] h0]; [reflexivity|]. unfold qfilter.
+  rewrite dropwhile_filter_asc by (apply asc_filter, desc_rev_asc; exact Hd).
+  apply filter_filter_weaker. inversion Hle; subst. cbn [fst] in *. lia.
+Qed.
+
+Lemma run_hist_ok iv hist : good_hist iv hist ->
+  Inv (run_hist iv hist) /\ live (run_hist iv hist) = qfilter iv hist /\ interval (run_hist iv hist) = iv.
+Proof.
+  intros [Hiv [Hr Hd]]. induction hist as [|[now cnt] hist IH].
+  - destruct (new_counter_inv iv) as [A B]. split; [exact A|]. split; [exact B|reflexivity].
+  - inversion Hr as [|? ? Hnow Hr']; subst. destruct Hd as [Hle Hd']. cbn [fst] in Hnow, Hle.
+    destruct (IH Hr' Hd') as [I1 [I2 I3]]. cbn [run_hist fold_right fst snd]. fold (run_hist iv hist).
+    set (c := run_hist iv hist) in *. unfold update_and_add.
+    destruct (expire_ok c now I1) as [E1 [E2 [E3 [E4 E5]]]]. rewrite I3 in *.
+    assert (Hm : wrap64 (now - iv) = now - iv) by (apply wrap64_small; unfold trange in Hnow; lia).
+    rewrite Hm in *.
+    assert (Hs : sub_neg now (minTime (expire c now)) = false).
+    { rewrite E5, sub_neg_small by (unfold trange in Hnow; lia). apply Z.ltb_ge. lia. }
+    destruct (add_ok (expire c now) now cnt E1 Hs) as [A1 [A2 [A3 A4]]].
+    split; [exact A1|]. split; [|rewrite A3, E4; reflexivity].
+    rewrite A2, E2, I2.
+    (* the comparison on live points is the mathematical one *)
+    assert (Hlive_range : Forall (fun e => trange (fst e)) (qfilter iv hist)).
+    { unfold qfilter. destruct hist as [|[t0 c0] h0]; [constructor|].
+      apply Forall_forall. intros e He. apply filter_In in He. destruct He as [He _].
+      apply in_rev in He. rewrite Forall_forall in Hr'. apply Hr'. exact He. }
+    assert (Hdw : dropwhile (fun e => sub_neg (fst e) (now - iv)) (qfilter iv hist)
+                  = dropwhile (fun e => fst e <? now - iv) (qfilter iv hist)).
+    { apply dropwhile_sub_neg; [exact Hlive_range|unfold trange in Hnow; lia]. }
+    rewrite Hdw. unfold qfilter at 2. cbn [rev]. rewrite filter_app. cbn [filter fst].
+    replace (now - iv <=? now) with true by (symmetry; apply Z.leb_le; lia). f_equal.
+    apply qfilter_step; assumption.
+Qed.
+
+(* the running sum kept by the ring buffer is the sliding-window sum, for every history the
+   ring accepts: any length (any number of resizes and wrap-arounds), any counts *)
+Theorem ring_refines_window iv now cnt hist :
+  good_hist iv ((now, cnt) :: hist) ->
+  sum (run_hist iv ((now, cnt) :: hist)) = window_sum iv now ((now, cnt) :: hist).
+Proof.
+  intros Hg. destruct (run_hist_ok iv _ Hg) as [I1 [I2 I3]]. unfold sum.
+  rewrite (inv_total _ I1), I2. unfold qfilter. rewrite filter_rev, zsum_rev, window_sum_filter. reflexivity.
+Qed.
+
+(* ---------- the limiter ---------- *)
+
+Definition pk_hist (hist : list (Z * Z)) : list (Z * Z) := map (fun e => (fst e, 1)) hist.
+
+(* the limiter after the granted history hist (newest first) *)
+Definition lim_state (pps bps iv : Z) (hist : list (Z * Z)) : limiter :=
+  mkLimiter (if 0 <? pps then Some (run_hist iv (pk_hist hist)) else None)
+            (if 0 <? bps then Some (run_hist iv hist) else None) pps bps.
+
+Lemma desc_map_fst (f : Z * Z -> Z * Z) l : (forall e, fst (f e) = fst e) -> desc l -> desc (map f l).
+Proof.
+  intros Hf. induction l as [|x r IH]; intros H; [exact I|]. destruct H as [Hx Hr]. cbn [map desc]. split.
+  - apply Forall_forall. intros y Hy. apply in_map_iff in Hy. destruct Hy as [y0 [<- Hy0]].
+    rewrite !Hf. rewrite Forall_forall in Hx. apply Hx. exact Hy0.
+  - apply IH. exact Hr.
+Qed.
+
+Lemma good_hist_pk iv hist : good_hist iv hist -> good_hist iv (pk_hist hist).
+Proof.
+  intros [Hiv [Hr Hd]]. split; [exact Hiv|]. split.
+  - unfold pk_hist. apply Forall_forall. intros y Hy. apply in_map_iff in Hy. destruct Hy as [y0 [<- Hy0]].
+    cbn [fst]. rewrite Forall_forall in Hr. apply Hr. exact Hy0.
+  - apply desc_map_fst; [reflexivity|exact Hd].
+Qed.
+
+Lemma good_hist_tail iv e hist : good_hist iv (e :: hist) -> good_hist iv hist.
+Proof.
+  intros [Hiv [Hr Hd]]. inversion Hr; subst. destruct Hd as [_ Hd]. split; [exact Hiv|split; assumption].
+Qed.
+
+Lemma good_hist_suffix iv l hist : good_hist iv (l ++ hist) -> good_hist iv hist.
+Proof. induction l as [|x r IH]; [auto|]. intros H. apply IH. eapply good_hist_tail. exact H. Qed.
+
+(* one Account call on the state reached after an granted history *)
+Lemma account_step exc pps bps iv hist now nb :
+  good_hist iv ((now, nb) :: hist) ->
+  snd (account_with exc (lim_state pps bps iv hist) nb now) = spec_decision exc pps bps iv hist now nb /\
+  (spec_decision exc pps bps iv hist now nb = true ->
+   fst (account_with exc (lim_state pps bps iv hist) nb now) = lim_state pps bps iv ((now, nb) :: hist)).
+Proof.
+  intros Hg. pose proof (good_hist_pk _ _ Hg) as Hgp. cbn [pk_hist map fst] in Hgp. fold (pk_hist hist) in Hgp.
+  assert (Hiv : (iv <=? 0) = false) by (destruct Hg as [Hiv _]; apply Z.leb_gt; lia).
+  pose proof (ring_refines_window iv now nb hist Hg) as Wb.
+  pose proof (ring_refines_window iv now 1 (pk_hist hist) Hgp) as Wp.
+  destruct (run_hist_ok iv _ Hg) as [_ [_ Ib]]. destruct (run_hist_ok iv _ Hgp) as [_ [_ Ip]].
+  unfold sum in Wb, Wp.
+  change (run_hist iv ((now, nb) :: hist)) with (update_and_add (run_hist iv hist) nb now) in *.
+  change (run_hist iv ((now, 1) :: pk_hist hist)) with (update_and_add (run_hist iv (pk_hist hist)) 1 now) in *.
+  unfold spec_decision. rewrite Hiv. cbn [map fst]. fold (pk_hist hist).
+  unfold account_with, lim_state. cbn [packets bytesc Limiter.pps Limiter.bps].
+  destruct (0 <? pps) eqn:Epp; destruct (0 <? bps) eqn:Ebp; cbn [packets bytesc Limiter.pps Limiter.bps snd fst].
+  - rewrite Wp, Ip.
+    destruct (exc (window_sum iv now ((now, 1) :: pk_hist hist)) iv pps) eqn:Ex; cbn [snd fst orb negb].
+    + split; [reflexivity|discriminate].
+    + rewrite Wb, Ib. split; [reflexivity|]. intros _.
+      reflexivity.
+  - rewrite Wp, Ip.
+    destruct (exc (window_sum iv now ((now, 1) :: pk_hist hist)) iv pps) eqn:Ex; cbn [snd fst orb negb].
+    + split; [reflexivity|discriminate].
+    + split; [reflexivity|]. intros _. reflexivity.
+  - rewrite Wb, Ib. cbn [orb]. split; [reflexivity|]. intros _. reflexivity.
+  - split; [reflexivity|]. intros _. reflexivity.
+Qed.
+
+Lemma limiter_run_agrees exc pps bps iv : forall evs hist,
+  good_hist iv (rev evs ++ hist) ->
+  prefix_agrees (spec_run exc pps bps iv hist evs)
+                (map snd (run_limiter exc (Some (lim_state pps bps iv hist)) evs)) = true.
+Proof.
+  induction evs as [|[now nb] r IH]; intros hist Hg; [reflexivity|].
+  cbn [rev] in Hg. rewrite <- app_assoc in Hg. cbn [app] in Hg.
+  pose proof (good_hist_suffix _ _ _ Hg) as Hg1.
+  destruct (account_step exc pps bps iv hist now nb Hg1) as [S1 S2].
+  cbn [spec_run run_limiter].
+  destruct (account_with exc (lim_state pps bps iv hist) nb now) as [l1 ok] eqn:Ea. cbn [snd fst] in S1, S2.
+  cbn [map snd]. rewrite <- S1. destruct ok.
+  - cbn [prefix_agrees Bool.eqb andb]. rewrite (S2 (eq_sym S1)). apply IH. exact Hg.
+  - reflexivity.
+Qed.
+
+Lemma nil_limiter_agrees exc pps bps iv : (0 <? pps) = false -> (0 <? bps) = false -> forall evs hist,
+  prefix_agrees (spec_run exc pps bps iv hist evs) (map snd (run_limiter exc None evs)) = true.
+Proof.
+  intros Hp Hb. induction evs as [|[now nb] r IH]; intros hist; [reflexivity|].
+  cbn [spec_run run_limiter map snd]. unfold spec_decision. rewrite Hp, Hb. cbn [orb negb].
+  destruct (iv <=? 0); cbn [prefix_agrees Bool.eqb andb]; apply IH.
+Qed.
+
+Lemma desc_app_one l x : desc l -> Forall (fun y : Z * Z => fst x <= fst y) l -> desc (l ++ [x]).
+Proof.
+  induction l as [|y l IHl]; intros D G; [split; [constructor|exact I]|].
+  destruct D as [Dy Dl]. inversion G as [|? ? Gy Gl]; subst. cbn [app desc]. split.
+  - apply Forall_app. split; [exact Dy|]. constructor; [exact Gy|constructor].
+  - apply IHl; assumption.
+Qed.
+
+Lemma sorted_from_desc : forall evs t, sorted_from t evs = true ->
+  Forall (fun e : Z * Z => t <= fst e) evs /\ desc (rev evs).
+Proof.
+  induction evs as [|[now nb] r IH]; intros t H; [split; [constructor|exact I]|].
+  cbn [sorted_from] in H. apply andb_true_iff in H. destruct H as [H1 H2]. apply Z.leb_le in H1.
+  destruct (IH now H2) as [F D]. split.
+  - constructor; [exact H1|]. eapply Forall_impl; [|exact F]. cbn beta. intros; lia.
+  - cbn [rev]. apply desc_app_one; [exact D|]. apply Forall_rev. exact F.
+Qed.
+
+Lemma in_range_good iv evs : in_range iv evs = true -> good_hist iv (rev evs ++ []).
+Proof.
+  unfold in_range. intros H. apply andb_true_iff in H. destruct H as [H Hs].
+  apply andb_true_iff in H. destruct H as [H Hf]. apply andb_true_iff in H. destruct H as [H1 H2].
+  apply Z.ltb_lt in H1, H2. rewrite app_nil_r. split; [lia|]. split.
+  - apply Forall_rev. rewrite forallb_forall in Hf. apply Forall_forall. intros e He. specialize (Hf e He).
+    apply andb_true_iff in Hf. destruct Hf as [Hf _]. apply andb_true_iff in Hf. destruct Hf as [Hf _].
+    apply andb_true_iff in Hf. destruct Hf as [A B]. apply Z.leb_le in A. apply Z.ltb_lt in B. unfold trange. lia.
+  - apply (sorted_from_desc evs 0 Hs).
+Qed.
+
+(* the limiter's decisions are those of the straightforward sliding-window count, up to and including
+   the first refusal, for every rate comparison exc and every sequence in range *)
+Theorem limiter_refines_window exc pps bps iv evs :
+  in_range iv evs = true ->
+  prefix_agrees (spec_run exc pps bps iv [] evs)
+                (map snd (run_limiter exc (new_limiter pps bps iv) evs)) = true.
+Proof.
+  intros Hr. pose proof (in_range_good iv evs Hr) as Hg.
+  assert (Hiv : (iv <=? 0) = false) by (destruct Hg as [Hiv _]; apply Z.leb_gt; lia).
+  unfold new_limiter. rewrite Hiv. cbn [orb].
+  destruct ((pps <=? 0) && (bps <=? 0)) eqn:E.
+  - apply andb_true_iff in E. destruct E as [E1 E2]. apply Z.leb_le in E1, E2.
+    apply nil_limiter_agrees; apply Z.ltb_ge; lia.
+  - exact (limiter_run_agrees exc pps bps iv evs [] Hg).
+Qed.
+
+(* ====================================================================== *)
+(* (b) token bucket bound                                                   *)
+(* ====================================================================== *)
+
+Fixpoint sorted_ge (t : Z) (ts : list Z) : Prop :=
+  match ts with [] => True | x :: r => t <= x /\ sorted_ge x r end.
+
+Definition binv (burst rden : Z) (b : bucket) : Prop := 0 <= tok b <= burst * rden.
+
+Lemma granted_zero t0 t1 : forall ts oks t, sorted_ge t ts -> t1 < t -> granted_in t0 t1 ts oks = 0.
+Proof.
+  induction ts as [|x r IH]; intros oks t Hs Ht; [reflexivity|]. destruct Hs as [Hx Hr].
+  destruct oks as [|ok oks]; [reflexivity|]. cbn [granted_in].
+  replace (x <=? t1) with false by (symmetry; apply Z.leb_gt; lia). rewrite andb_false_r.
+  rewrite (IH oks x Hr ltac:(lia)). reflexivity.
+Qed.
+
+Section Bucket.
+Variables burst rnum rden : Z.
+Hypothesis Hrnum : 0 <= rnum.
+Hypothesis Hrden : 0 < rden.
+Hypothesis Hburst : 0 <= burst.
+
+Lemma bucket_allow_inv b t : binv burst rden b -> last b <= t ->
+  binv burst rden (fst (bucket_allow burst rnum rden b t)) /\ last (fst (bucket_allow burst rnum rden b t)) = t.
+Proof.
+  intros [H0 H1] Ht. unfold bucket_allow. rewrite Z.max_l by lia.
+  destruct (Z.leb_spec rden (Z.min (burst * rden) (tok b + rnum * (t - last b)))) as [Hle|Hgt];
+    cbn [fst tok last]; unfold binv; cbn [tok]; split; try reflexivity; nia.
+Qed.
+
+(* from any state, the events up to t1 cannot use more than the tokens present plus the refill *)
+Lemma bucket_upto t0 t1 : forall ts b, binv burst rden b -> sorted_ge (last b) ts -> last b <= t1 ->
+  granted_in t0 t1 ts (bucket_run burst rnum rden b ts) * rden <= tok b + rnum * (t1 - last b).
+Proof.
+  induction ts as [|t r IH]; intros b Hb Hs Hl; cbn [bucket_run granted_in].
+  - destruct Hb. nia.
+  - destruct Hs as [Ht Hr].
+    destruct (bucket_allow_inv b t Hb Ht) as [Hb' Hl'].
+    destruct (bucket_allow burst rnum rden b t) as [b' ok] eqn:Ea. cbn [fst] in Hb', Hl'. cbn [granted_in].
+    destruct (Z.leb_spec t t1) as [Hin|Hout].
+    + specialize (IH b' Hb' ltac:(rewrite Hl'; exact Hr) ltac:(lia)). rewrite Hl' in IH.
+      unfold bucket_allow in Ea. rewrite Z.max_l in Ea by lia.
+      destruct Hb as [Hb0 Hb1].
+      destruct (Z.leb_spec rden (Z.min (burst * rden) (tok b + rnum * (t - last b)))) as [Hle|Hgt];
+        injection Ea as <- <-; cbn [tok] in IH; destruct (t0 <=? t); cbn [andb]; lia.
+    + rewrite andb_false_r. rewrite (granted_zero t0 t1 r _ t Hr Hout). destruct Hb. nia.
+Qed.
+
+(* at most burst + rate * (t1 - t0) events are granted in any interval [t0, t1] *)
+Theorem bucket_bound t0 t1 : t0 <= t1 -> forall ts b, binv burst rden b -> sorted_ge (last b) ts ->
+  granted_in t0 t1 ts (bucket_run burst rnum rden b ts) * rden <= burst * rden + rnum * (t1 - t0).
+Proof.
+  intros H01. induction ts as [|t r IH]; intros b Hb Hs; cbn [bucket_run granted_in]; [nia|].
+  destruct Hs as [Ht Hr].
+  destruct (bucket_allow_inv b t Hb Ht) as [Hb' Hl'].
+  destruct (bucket_allow burst rnum rden b t) as [b' ok] eqn:Ea. cbn [fst] in Hb', Hl'. cbn [granted_in].
+  destruct (Z.leb_spec t0 t) as [Hge|Hlt].
+  - destruct (Z.leb_spec t t1) as [Hin|Hout].
+    + pose proof (bucket_upto t0 t1 r b' Hb' ltac:(rewrite Hl'; exact Hr) ltac:(lia)) as U. rewrite Hl' in U.
+      unfold bucket_allow in Ea. rewrite Z.max_l in Ea by lia. destruct Hb as [Hb0 Hb1].
+      destruct (Z.leb_spec rden (Z.min (burst * rden) (tok b + rnum * (t - last b)))) as [Hle|Hgt];
+        injection Ea as <- <-; cbn [tok] in U; cbn [andb]; nia.
+    + rewrite andb_false_r. rewrite (granted_zero t0 t1 r _ t Hr Hout). nia.
+  - rewrite andb_false_r. cbn [andb]. specialize (IH b' Hb' ltac:(rewrite Hl'; exact Hr)). lia.
+Qed.
+
+(* and a token that is there is granted: an event is granted iff a whole token is available *)
+Lemma bucket_allow_iff b t :
+  snd (bucket_allow burst rnum rden b t) = true <->
+  rden <= Z.min (burst * rden) (tok b + rnum * (Z.max t (last b) - last b)).
+Proof.
+  unfold bucket_allow. destruct (Z.leb_spec rden (Z.min (burst * rden) (tok b + rnum * (Z.max t (last b) - last b))));
+    cbn [snd]; split; intros; try reflexivity; try discriminate; lia.
+Qed.
+End Bucket.
+
+(* ====================================================================== *)
+(* (a) ipKey                                                               *)
+(* ====================================================================== *)
+Open Scope N_scope.
+
+Lemma land_mask_eq_iff x y n : n <= 128 ->
+  (N.land x (mask6 n) = N.land y (mask6 n) <->
+   forall i, 128 - n <= i < 128 -> N.testbit x i = N.testbit y i).
+Proof.
+  intros Hn. split.
+  - intros H i Hi. apply (f_equal (fun v => N.testbit v i)) in H. rewrite !N.land_spec, mask6_bits in H by assumption.
+    replace (128 - n <=? i) with true in H by (symmetry; apply N.leb_le; lia).
+    replace (i <? 128) with true in H by (symmetry; apply N.ltb_lt; lia).
+    rewrite !andb_true_r in H. exact H.
+  - intros H. apply N.bits_inj. intros i. rewrite !N.land_spec, mask6_bits by assumption.
+    destruct (N.leb_spec (128 - n) i); [|rewrite !andb_false_r; reflexivity].
+    destruct (N.ltb_spec i 128); [|rewrite !andb_false_r; reflexivity].
+    rewrite !andb_true_r. apply H. lia.
+Qed.
+
+(* two addresses get the same bucket iff both are IPv4 (plain or IPv4-mapped) with the same /24,
+   or both are other IPv6 addresses with the same /64 *)
+Theorem ip_key_eq_iff a b : wf_addr a -> wf_addr b ->
+  (key_of_addr a = key_of_addr b <->
+   (fam (unmap a) = V4 /\ fam (unmap b) = V4 /\
+    forall i, 8 <= i < 32 -> N.testbit (abits a) i = N.testbit (abits b) i) \/
+   (fam (unmap a) = V6 /\ fam (unmap b) = V6 /\
+    forall i, 64 <= i < 128 -> N.testbit (abits a) i = N.testbit (abits b) i)).
+Proof.
+  intros Ha Hb. pose proof (unmap_wf _ Ha) as Hua. pose proof (unmap_wf _ Hb) as Hub.
+  unfold key_of_addr. rewrite !unmap_abits.
+  destruct (fam (unmap a)) eqn:Efa; destruct (fam (unmap b)) eqn:Efb.
+  - split.
+    + intros H. left. split; [reflexivity|]. split; [reflexivity|].
+      assert (E : N.land (abits a) (mask6 (96 + 24)) = N.land (abits b) (mask6 (96 + 24))) by congruence.
+      pose proof (proj1 (land_mask_eq_iff _ _ (96 + 24) ltac:(lia)) E) as E'. intros i Hi. apply E'. lia.
+    + intros [[_ [_ H]]|[H _]]; [|discriminate]. f_equal. apply (land_mask_eq_iff _ _ (96 + 24)); [lia|].
+      intros i Hi. destruct (N.lt_ge_cases i 32) as [Hlt|Hge]; [apply H; lia|].
+      rewrite <- (unmap_abits a), <- (unmap_abits b).
+      rewrite (wf_v4_high_bits _ i Hua Efa Hge), (wf_v4_high_bits _ i Hub Efb Hge). reflexivity.
+  - split; [discriminate|]. intros [[_ [H _]]|[H _]]; discriminate.
+  - split; [discriminate|]. intros [[H _]|[_ [H _]]]; discriminate.
+  - split.
+    + intros H. right. split; [reflexivity|]. split; [reflexivity|].
+      assert (E : N.land (abits a) (mask6 64) = N.land (abits b) (mask6 64)) by congruence.
+      pose proof (proj1 (land_mask_eq_iff _ _ 64 ltac:(lia)) E) as E'. intros i Hi. apply E'. lia.
+    + intros [[H _]|[_ [_ H]]]; [discriminate|]. f_equal. apply (land_mask_eq_iff _ _ 64); [lia|].
+      intros i Hi. apply H. lia.
+Qed.
+
+(* on texts: unparsable texts have no key (never limited); parsable ones are grouped as above, zone ignored *)
+Theorem spec_ip_key_groups s1 s2 a1 a2 :
+  parse_addr s1 = Some a1 -> parse_addr s2 = Some a2 ->
+  (spec_ip_key s1 = spec_ip_key s2 <-> key_of_addr (strip_zone a1) = key_of_addr (strip_zone a2)) /\
+  spec_ip_key s1 <> None.
+Proof.
+  intros H1 H2. unfold spec_ip_key. rewrite H1, H2. split; [|discriminate].
+  split; [intros H; injection H as H; exact H|intros ->; reflexivity].
+Qed.
+
+Theorem spec_ip_key_none s : parse_addr s = None -> spec_ip_key s = None /\ impl_ip_key s = None.
+Proof. intros H. unfold spec_ip_key, impl_ip_key, parse_ip_legacy. rewrite H. split; reflexivity. Qed.
+
+(* the faithful model and the demanded one agree on every text without a zone ... *)
+Theorem impl_ip_key_eq_spec_off_trigger s : zone_trigger s = false -> impl_ip_key s = spec_ip_key s.
+Proof.
+  unfold zone_trigger, impl_ip_key, spec_ip_key, parse_ip_legacy. destruct (parse_addr s) as [a|]; [|reflexivity].
+  intros H. rewrite H. unfold has_zone in H. destruct a as [f b z]. cbn [zone] in H. destruct z; [|discriminate].
+  unfold strip_zone, with_zone. cbn [fam abits]. destruct f; reflexivity.
+Qed.
+
+(* ... and differ on zoned ones: finding C34-1 *)
+Theorem ip_key_zone_refuted : exists s,
+  zone_trigger s = true /\ impl_ip_key s = None /\ spec_ip_key s <> None /\
+  spec_ip_key s = spec_ip_key [102; 101; 56; 48; 58; 58; 49].       (* "fe80::1%eth0" groups with "fe80::1" *)
+Proof.
+  exists [102; 101; 56; 48; 58; 58; 49; 37; 101; 116; 104; 48].
+  repeat split; try (vm_compute; reflexivity). vm_compute. discriminate.
+Qed.
+
+Open Scope Z_scope.
+
+(* ====================================================================== *)
+(* the float comparison                                                     *)
+(* ====================================================================== *)
+
+(* (window, limits) pairs and totals around the threshold limit * window / 1e9 *)
+Definition float_table_windows : list Z :=
+  [1000000; 50000000; 100000000; 500000000; 1000000000; 1234000000; 2500000000; 3000000000; 5000000000;
+   7000000000; 10000000000; 15000000000; 30000000000; 60000000000].
+Definition float_table_limits : list Z :=
+  [1; 2; 3; 5; 7; 10; 13; 20; 50; 100; 333; 500; 977; 1000; 4096; 65536; 100000; 1048576; 1073741824; 2147483647].
+
+Definition float_agrees_at (iv limit tot : Z) : bool :=
+  Bool.eqb (exceeds_float tot iv limit) (exceeds_exact tot iv limit).
+
+Definition float_table_ok : bool :=
+  forallb (fun iv => forallb (fun limit =>
+     let t := limit * iv / 1000000000 in
+     forallb (float_agrees_at iv limit) [Z.max 0 (t - 2); Z.max 0 (t - 1); t; t + 1; t + 2; 0; 2 * t + 1])
+     float_table_limits) float_table_windows.
+
+(* PARTIAL: the bit-exact float comparison equals the exact one on the table above (all totals within 2 of the
+   threshold) and, for the default configuration (7 s, 500 packets/s), on every total up to 8099.
+   A proof for all totals/windows/limits (monotonicity of IEEE division, e.g. via Flocq's real-number
+   specification) is not done; the boundary sweep of the correspondence carries the rest. *)
+Theorem float_decision_exact_partial :
+  (forall iv limit, In iv float_table_windows -> In limit float_table_limits ->
+     let t := limit * iv / 1000000000 in
+     forall tot, In tot [Z.max 0 (t - 2); Z.max 0 (t - 1); t; t + 1; t + 2; 0; 2 * t + 1] ->
+     exceeds_float tot iv limit = exceeds_exact tot iv limit) /\
+  (forall a b, (a <= 80)%nat -> (b < 100)%nat ->
+     let n := Z.of_nat (100 * a + b) in
+     exceeds_float n 7000000000 500 = exceeds_exact n 7000000000 500).
+Proof.
+  split.
+  - assert (H : float_table_ok = true) by (vm_compute; reflexivity).
+    intros iv limit Hiv Hl t tot Ht. unfold float_table_ok in H.
+    rewrite forallb_forall in H. specialize (H iv Hiv). rewrite forallb_forall in H. specialize (H limit Hl).
+    cbv zeta in H. rewrite forallb_forall in H. specialize (H tot Ht). unfold float_agrees_at in H.
+    apply Bool.eqb_prop in H. exact H.
+  - assert (H : forallb (fun a => forallb (fun b => float_agrees_at 7000000000 500 (Z.of_nat (100 * a + b))) (seq 0 100)) (seq 0 81) = true)
+      by (vm_compute; reflexivity).
+    intros a b Ha Hb n. rewrite forallb_forall in H. specialize (H a ltac:(apply in_seq; lia)).
+    rewrite forallb_forall in H. specialize (H b ltac:(apply in_seq; lia)).
+    unfold float_agrees_at in H. apply Bool.eqb_prop in H. exact H.
+Qed.
+
+(* ====================================================================== *)
+(* non-vacuity and the edge of the quantifier                               *)
+(* ====================================================================== *)
+
+(* 40 points 1 ms apart after 5 that expire first (so head has moved when the ring fills): three resizes *)
+Definition sample_events : list (Z * Z) :=
+  map (fun k => (Z.of_nat k, 1)) (seq 1 5) ++
+  map (fun k => (8000000000 + 1000000 * Z.of_nat k, Z.of_nat k)) (seq 0 40).
+
+Example ring_nonvacuous :
+  good_hist 7000000000 (rev sample_events ++ []) /\
+  cap (run_hist 7000000000 (rev sample_events)) = 64%nat /\
+  sum (run_hist 7000000000 (rev sample_events)) = 780 /\
+  head (run_hist 7000000000 (rev (firstn 12 sample_events))) = 5%nat.
+Proof.
+  split; [apply in_range_good; vm_compute; reflexivity|]. repeat split; vm_compute; reflexivity.
+Qed.
+
+Example limiter_nonvacuous :
+  in_range 7000000000 sample_events = true /\
+  map snd (run_limiter exceeds_float (new_limiter 5 (-1) 7000000000) (firstn 8 sample_events))
+    = [true; true; true; true; true; true; true; true] /\
+  existsb negb (map snd (run_limiter exceeds_float (new_limiter 5 (-1) 7000000000) sample_events)) = true.
+Proof. repeat split; vm_compute; reflexivity. Qed.
+
+(* outside the quantifier: when the clock steps back the ring keeps a stale point behind a newer one
+   (it only pops from the head), so its sum is no longer the window sum *)
+Example ring_clock_steps_back_differs :
+  let hist := [(25, 1); (5, 1); (20, 1)] in     (* newest first: times 20, 5, 25 with window 10 *)
+  sum (run_hist 10 hist) = 3 /\ window_sum 10 25 hist = 2.
+Proof. split; vm_compute; reflexivity. Qed.
+
+Example bucket_nonvacuous :
+  let ts := [0; 0; 0; 0; 0; 1000000000; 1000000001; 2500000000; 2500000000; 10000000000; 10000000000; 10000000000; 10000000000] in
+  let oks := bucket_run 3 1 1000000000 (bucket_new 3 1000000000 0) ts in
+  oks = [true; true; true; false; false; true; false; true; false; true; true; true; false] /\
+  granted_in 0 2500000000 ts oks = 5.                      (* = burst 3 + 1/s * 2.5 s, rounded down *)
+Proof. split; vm_compute; reflexivity. Qed.
+
+Example ip_key_samples :
+  spec_ip_key (tx "::ffff:10.1.2.3"%string) = spec_ip_key (tx "10.1.2.200"%string) /\
+  spec_ip_key (tx "10.1.2.3"%string) <> spec_ip_key (tx "10.1.3.3"%string) /\
+  spec_ip_key (tx "2001:db8:0:1::1"%string) = spec_ip_key (tx "2001:db8:0:1:ffff:ffff:ffff:ffff"%string) /\
+  spec_ip_key (tx "2001:db8:0:1::1"%string) <> spec_ip_key (tx "2001:db8:0:2::1"%string) /\
+  spec_ip_key (tx "::10.1.2.3"%string) <> spec_ip_key (tx "10.1.2.3"%string) /\
+  spec_ip_key (tx "pipe"%string) = None.
+Proof. repeat split; vm_compute; congruence. Qed.
